@@ -10,7 +10,7 @@ HERE = os.path.dirname(os.path.dirname(os.path.abspath(__file__)))
 # id -> (design section, technique, level text, level note, engine)
 CHECKS = {
     "C01": ("DESIGN.md section 4 / C01",
-            "property-based differential testing against a reference model (M-dewey), correlated pair generator, shrinking",
+            "property-based differential testing against a reference model (M-dewey), correlated pair generator, shrinking; thorough tier adds a coverage-guided libFuzzer campaign on the same oracle",
             "Generated-input search: every generated version pair is judged for all four operators, both directions, through Pattern, Dewey and best_match against an independent model of pkg_install's dewey rule. Exploration of a bounded token grammar (<= 12 tokens, <= 18-digit runs); absence of defects is not established.",
             "Trusts the reference model M-dewey (written from the property statement, self-checked at start) and proptest's generators; known finding KF-1 region is judged leniently and counted.",
             "pbt"),
@@ -20,12 +20,12 @@ CHECKS = {
             "Trusts M-dewey-pattern / M-dewey (self-checked); versions and bounds are letter-free so KF-1 cannot interfere.",
             "pbt"),
     "C03": ("DESIGN.md section 4 / C03",
-            "property-based testing of algebraic laws (total preorder, operator duality/converse, two-bound conjunction) on correlated triples, shrinking",
+            "property-based testing of algebraic laws (total preorder, operator duality/converse, two-bound conjunction) on correlated triples, shrinking; thorough tier adds a coverage-guided libFuzzer campaign on the same oracle",
             "Generated-input search: the order laws are checked on the library's own verdicts for correlated triples over arbitrary text (incl. non-ASCII, control characters, 19-40 digit runs, 200-character strings), all 27 index triples and all role assignments of two-bound patterns.",
             "No reference model; assumes only that Pattern::new/matches is the comparison the property talks about.",
             "pbt"),
     "C04": ("DESIGN.md section 4 / C04",
-            "grammar-based property testing against a csh brace expander (M-brace) with decoy names from deliberately wrong expanders, shrinking",
+            "grammar-based property testing against a csh brace expander (M-brace) with decoy names from deliberately wrong expanders, shrinking; thorough tier adds a coverage-guided libFuzzer campaign on the same oracle",
             "Generated-input search: brace patterns from the csh grammar (bounded groups/expansions) with instance, decoy and mutant names; compile verdict vs balanced(), match verdict vs union over the model's expansions.",
             "Trusts M-brace (self-checked); brace-free expansions are judged by the library itself as the statement prescribes (checked independently by C02/C05).",
             "pbt"),
@@ -50,7 +50,7 @@ CHECKS = {
             "Trusts M-summary.parse/causes (self-checked); with several simultaneous causes any one is accepted.",
             "pbt"),
     "C09": ("DESIGN.md section 4 / C09",
-            "property-based metamorphic testing over chunk partitions (enumerated single cuts, pairs, fixed sizes, random) with fault injection of one malformed entry",
+            "property-based metamorphic testing over chunk partitions (enumerated single cuts, pairs, fixed sizes, random) with fault injection of one malformed entry; thorough tier adds a coverage-guided libFuzzer campaign on the same oracle",
             "Generated-input search over (stream, partition): every partition of each generated stream must give the same entries as the one-call write and the model; for a malformed entry the failing write, its error kind and the entries collected so far are checked for every partition.",
             "Trusts M-summary for the expected entries; doubled blank lines (empty entries) are outside the generated domain.",
             "pbt"),
@@ -75,7 +75,7 @@ CHECKS = {
             "Trusts M-hash (test vectors at start, cross-checked against Python hashlib during development).",
             "pbt"),
     "C14": ("DESIGN.md section 4 / C14",
-            "property-based differential testing against a line-level reference model (M-plist) over generated byte documents, shrinking",
+            "property-based differential testing against a line-level reference model (M-plist) over generated byte documents, shrinking; thorough tier adds a coverage-guided libFuzzer campaign on the same oracle",
             "Generated-input search: documents of generated lines (one- and two-byte file names, every command with every argument shape, unknown commands, blank lines, raw bytes) are parsed and compared line by line and as a whole entry list with an independent model. Exploration of documents of <= 30 lines.",
             "Trusts M-plist (written from the statement, self-checked) and the derived Debug rendering of Plist as a faithful view of its private entry list; bytes 0x85/0xA0/VT/FF/CR in white-space-sensitive positions are outside the generated domain.",
             "pbt"),
@@ -90,7 +90,7 @@ CHECKS = {
             "Trusts M-scan; dependency items / locations come from fixed valid and invalid pools (C19 decides their validity).",
             "pbt"),
     "C17": ("DESIGN.md section 4 / C17",
-            "robustness fuzzing with proptest: arbitrary bytes, grammar-derived documents and mutations of valid documents at eleven byte-level targets covering every public entry point, panic capture and a watchdog; call-sequence interpreter for Summary",
+            "robustness fuzzing with proptest: arbitrary bytes, grammar-derived documents and mutations of valid documents at eleven byte-level targets covering every public entry point, panic capture and a watchdog; call-sequence interpreter for Summary; thorough tier adds a coverage-guided libFuzzer campaign on the same oracle",
             "Generated-input search for panics and hangs: every entry point that takes external text or bytes is driven with arbitrary, grammar-derived and mutated inputs (<= 4 KiB); a panic is caught and reported with message and location, a case exceeding the 20 s watchdog is confirmed in isolation before it counts.",
             "Inputs above 4 KiB, brace patterns above 1024 expansions (cost exponential by specification) and unreadable directories are not explored; time is a signal only through the watchdog with in-isolation confirmation.",
             "pbt"),
@@ -151,6 +151,9 @@ def main():
             {"name": "pbt", "path": "/verif/harness",
              "serves_properties": [c["property_id"] for c in checks],
              "kind_free_text": "stable-toolchain Rust harness (bin pv): seeded, sharded proptest TestRunner with shrinking, reference models, replay files, known-finding matcher, watchdog"},
+            {"name": "libfuzzer", "path": "/verif/harness/fuzz",
+             "serves_properties": ["C01", "C03", "C04", "C09", "C14", "C17"],
+             "kind_free_text": "cargo-fuzz / libFuzzer targets (nightly) whose oracle is the same harness code (pkgsrc_verif::fuzz); run by the thorough tier only: 8 worker processes per target, fixed number of runs, fresh corpus seeded from the harness generators, artifacts confirmed through the stable replay path"},
         ],
         "checks": checks,
         "notes": "All checks: exit 0 held / 1 violation (VIOLATION line) / 2 inconclusive. VERIF_SEED selects the PRNG seed (default 1). ./check rebuilds the harness against /repo's working tree on every call. Known findings: known_findings.json.",
